@@ -1,6 +1,8 @@
 /-
-  Parser ⟷ grammar (`Spec/Grammar.lean`), part 1: the infrastructure shared by both directions and the completeness
-  steps of the fragment without projections (atoms, parentheses, prefix and binary operators, `.name`, `[n]`,
+  Parser ⟷ grammar (`Spec/Grammar.lean`), part 1: the infrastructure shared by both directions (an induction principle
+  for `PTree`, the evaluator tactic `pm_eval` for the parser's `do` blocks on `stOf` states), the evaluation lemmas for
+  every case of `exprLoop`, `primaryExpression`, `projection` and `indexP`, and the completeness of the sequence parsers
+  and of the fragment without projections (atoms, parentheses, prefix and binary operators, `.name`, `[n]`,
   multi-select lists and hashes, function calls, `let`).
 
   Completeness is proved in continuation style (DESIGN Appendix F.1): `Reach b t` says "reading the tokens of the
